@@ -132,11 +132,38 @@ def check_impls(fx, rep, crate, cfg):
                   'the description of `%s` is built with the IDL constructor %s, the mapping requires %s' % (self_ty, got, want.rstrip('?')))
         # composite impls describe their own parameter
         if want in ('Optional', 'Array', 'Map', 'Map?', 'inner') and '<' in self_ty:
-            params = [u['rv']['op'].get('def') or '' for blk, i, u in body.iter_assigns() if u['rv']['k'] == 'use' and u['rv']['op'].get('k') == 'const']
+            params = [(u['rv']['op'].get('s') or '') + ' ' + (u['rv']['op'].get('def') or '') for blk, i, u in body.iter_assigns() if u['rv']['k'] == 'use' and u['rv']['op'].get('k') == 'const']
             params += [st for stmts in (body.d.get('promoted') or []) for st in stmts if re.search(r'Type(>)?::TYPE', st)]
-            params += [a.get('def') or '' for blk, t in body.iter_terms('call') for a in t['args'] if a.get('k') == 'const']
-            rep.check(any(re.search(r'Type(>)?::TYPE', p) for p in params), 'R16.1', key + '|element', body.where(), 'the element description is `<T as Type>::TYPE` of the impl\'s parameter',
-                      'the element of `%s` is not described by its parameter\'s `<T as Type>::TYPE`' % self_ty)
+            params += [(a.get('s') or '') + ' ' + (a.get('def') or '') for blk, t in body.iter_terms('call') for a in t['args'] if a.get('k') == 'const']
+            # which parameter: the value of a map (second generic argument), the element otherwise (first) - when that argument is a bare type parameter,
+            # the `<X as Type>::TYPE` the body uses must name exactly it (`String::TYPE` in the impl for BTreeMap<String, V> describes every map as [string]string)
+            gen = self_ty[self_ty.index('<') + 1:self_ty.rindex('>')] if '>' in self_ty else ''
+            gargs, depth_, cur_ = [], 0, ''
+            for ch in gen:
+                if ch == ',' and depth_ == 0:
+                    gargs.append(cur_.strip())
+                    cur_ = ''
+                    continue
+                depth_ += ch in '<(['
+                depth_ -= ch in '>)]'
+                cur_ += ch
+            if cur_.strip():
+                gargs.append(cur_.strip())
+            gargs = [a for a in gargs if not a.startswith("'")]
+            want_arg = None
+            if gargs:
+                want_arg = gargs[1] if (want in ('Map', 'Map?') and len(gargs) > 1) else gargs[0]
+                want_arg = re.sub(r"^&('\w+ )?(mut )?", '', want_arg)
+                if want_arg.startswith('[') and want_arg.endswith(']'):
+                    want_arg = want_arg[1:-1]
+            used = set()
+            for p_ in params:
+                for mm in re.finditer(r'<([^<>]+?) as [\w:#]*Type>::TYPE', p_):
+                    used.add(mm.group(1).strip())
+            bare = bool(want_arg) and re.fullmatch(r'[A-Z][A-Za-z0-9]*', want_arg) is not None
+            own = (not bare) or (not used) or (want_arg in used and all(u == want_arg or not re.fullmatch(r'[A-Za-z_][\w:]*', u) or u == want_arg for u in used))
+            rep.check(any(re.search(r'Type(>)?::TYPE', p) for p in params) and own, 'R16.1', key + '|element', body.where(), 'the element description is `<T as Type>::TYPE` of the impl\'s parameter',
+                      'the element of `%s` is not described by its parameter\'s `<T as Type>::TYPE`%s' % (self_ty, (' (the body names %s, the %s of the type is `%s`)' % (sorted(used), 'value' if want in ('Map', 'Map?') else 'element', want_arg)) if not own else ''))
     if n < (45 if cfg == 'full' else 20):
         rep.bad('R16.1', 'floor|%s' % cfg, '-', 'expected at least %d impls of introspect::Type in configuration %s, found %d: anchor lost' % (45 if cfg == 'full' else 20, cfg, n))
 
